@@ -25,6 +25,21 @@ CHECKS = {
             "Payload lengths 0..300 in both directions, counters 0..4095 (thorough), random keys, wire round trips on an authenticated simulated session, "
             "and every single-bit flip of a response for every padding residue.",
             "Trusts mv/ref/v3.py; marker/size bit flips at the LAN.send level may end in TimeoutError (framing never completes).", "DESIGN.md section 2 C05"),
+    "C10": ("exploration", "differential runtime monitor: 0x40 bodies captured by the simulated device decoded with a vendor-layout reference decoder; run-wide injectivity map",
+            "Every value of every settable field, 62 setpoints x 6 modes, fan bytes 0..127, all 768 combinations of flags sharing a byte, pairwise array, seeded random states; all through AirConditioner.apply() on the real stack.",
+            "Trusts mv/ref/acstate.decode_0x40 (transliteration of the vendor Lua, line references kept) and the oracle choices listed in DESIGN.md C10 'S'.", "DESIGN.md section 2 C10"),
+    "C11": ("exploration", "differential runtime monitor: attributes of a fresh AirConditioner after refresh() vs independent decode of the raw 0xC0 body the simulated device reported",
+            "256 x 10 temperature/tenths per sensor per unit, 32 x 32 setpoint codes, all 256 values of each flag byte, fan 0..127, lengths 16..40 x both check styles, random bodies.",
+            "Trusts mv/ref/acstate.decode_0xC0 and the oracle choices in DESIGN.md C11 'S' (permissive presence rule, unspecified enum values and aux precedence not judged).", "DESIGN.md section 2 C11"),
+    "C12": ("exploration", "strict spec-conforming frame parser + reference device command parser observing every frame emitted (direct tobytes() and on the simulated wire); message-id sequence monitor",
+            "All command classes over their parameter domains (512 property subsets, every property value, both capability pages, states), public operations under several capability profiles, and mixed sequences spanning many id wrap-arounds.",
+            "Trusts mv/ref/acframe.py (bitwise CRC-8/MAXIM) and the reference device's command grammar in mv/simdev.py.", "DESIGN.md section 2 C12"),
+    "C13": ("fault_enumeration", "single-byte fault enumeration on valid response frames with an independent validity predicate; state-diff and online/supported oracle after refresh()/get_capabilities()",
+            "Every byte position after the start byte x substitute values (51 sampled in quick, all 255 in thorough) x {plain, outer checksum recomputed} for state, capabilities, properties, energy and humidity responses.",
+            "Validity as defined in the statement's first sentence; corruptions that still satisfy it (other body check matches, property-response exemption) are skipped and counted.", "DESIGN.md section 2 C13"),
+    "C14": ("fault_enumeration", "containment monitor: no exception may escape five public operations fed enumerated malformed-but-checksum-valid responses; good-frame-applied oracle on mixed exchanges",
+            "All body/raw truncation lengths of every response kind, count/size bytes 0..255, records pointing past the end, every property/capability value, ids 0..255 x 6 frame types, random bodies, mixes of good and bad frames incl. unsolicited 0xB5 frames around a capability reply.",
+            "Frames are delivered in authentic V2 packets; transport-level malformation belongs to C09.", "DESIGN.md section 2 C14"),
 }
 
 NOT_YET = "check not built yet in this round (planned in DESIGN.md section 2)"
